@@ -1,5 +1,6 @@
 import GoCrypt.Model.Scheme
 import GoCrypt.Driver.State
+import GoCrypt.Driver.Codec
 
 namespace GoCrypt.Driver
 open Bytes GoCrypt GoCrypt.Scheme
@@ -31,6 +32,33 @@ def handleScheme : List String → Option String
     match S.guards a with
     | .error e => pure s!"err {e.type} {e.num} {toHex e.str}"
     | .ok _ => pure "accept"
+  | ["check", scheme, h, pw, rand] => do
+    let S ← byName scheme
+    let h ← ofHex h
+    let pw ← ofHex pw
+    pure (match check S h pw rand.toNat! with
+      | .nil => "nil"
+      | .mismatch => "mismatch"
+      | .uerr e => showUErr e
+      | .kerr e => s!"kerr {e.type} {e.num} {toHex e.str}"
+      | .internal w => "internal " ++ w
+      | .tagerr => "tagerr"
+      | .panic => "panic")
+  | ["params", scheme, h] => do
+    let S ← byName scheme
+    let h ← ofHex h
+    pure (match params S h with
+      | .error e => showUErr e
+      | .ok a => s!"ok {toHex a.salt} {a.rounds} {a.memory} {a.threads} {toHex a.optPrefix} {a.optVersion} {if a.optFlag then 1 else 0}")
+  | ["newhash", scheme, pw, rounds, memory, entropy] => do
+    let S ← byName scheme
+    let pw ← ofHex pw
+    let entropy ← ofHex entropy
+    pure (match newHash S { password := pw, rounds := rounds.toNat!, memory := memory.toNat!, entropy := entropy } with
+      | .ok h used => s!"ok {toHex h} {used}"
+      | .kerr e => s!"kerr {e.type} {e.num} {toHex e.str}"
+      | .internal w => "internal " ++ w
+      | .panic => "panic")
   | _ => none
 
 end GoCrypt.Driver
